@@ -7,3 +7,5 @@ open OrxPar
 #print axioms C05_mutex
 #print axioms C05_yield_once
 #print axioms C05_no_assert
+#print axioms C05_kernel_step
+#print axioms C05_kernel_log
